@@ -26,8 +26,8 @@ AutoAll   == {[prio |-> p, weak |-> w, prefix |-> x] : p \in {1, 2}, w \in BOOLE
 RVplain   == {"none", "halt"}
 RVremove  == {"none", "false", "remove", "haltremove", "true"}
 RVall     == {"none", "true", "false", "cont", "halt", "remove", "haltremove",
-              "empty", "throw"}
-RVerr     == {"none", "throw", "true"}
+              "empty", "throw", "throwb"}
+RVerr     == {"none", "throw", "throwb", "true"}
 ModesAll  == {"handler", "handlerT", "eid", "eidT", "pair"}
 TA  == {"A"}
 TAU == {"A", "U"}
